@@ -71,6 +71,9 @@ fn scenarios(thorough: bool) -> Vec<Scenario> {
         Scenario { name: "roa-add-refused", prefix: vec![], rejected: true, cold: false, before: vec![Op::Roa { ca: c(), add: vec!["10.0.3.0/24 => 65003".into()], del: vec![] }], op: Op::Roa { ca: c(), add: vec!["192.168.0.0/24 => 65000".into()], del: vec![] } },
         // a CA is created (the first record of a new entity)
         Scenario { name: "ca-created", prefix: vec![], rejected: false, cold: false, before: vec![], op: Op::InitCa { ca: "newca".into() } },
+        // a child is removed at its parent (its own CA is gone already, so
+        // that nothing is left orphaned): CA command and status records
+        Scenario { name: "child-removed", prefix: vec![Op::DeleteCa { ca: "gc".into() }], rejected: false, cold: false, before: vec![], op: Op::RemoveChild { parent: c(), child: "gc".into() } },
         Scenario { name: "parent-removed", prefix: vec![], rejected: false, cold: false, before: vec![], op: Op::RemoveParent { ca: "gc".into(), parent: c() } },
         Scenario { name: "snapshots-after-changes", prefix: vec![Op::Snapshots, Op::Roa { ca: c(), add: vec!["10.0.4.0/24 => 65000".into()], del: vec![] }], rejected: false, cold: false, before: vec![], op: Op::Snapshots },
         Scenario { name: "entitlement-shrink", prefix: vec![], rejected: false, cold: false, before: vec![], op: Op::Entitle { parent: p(), child: c(), res: r3("AS65000-AS65005", "10.0.0.0/16", "2001:db8::/48") } },
@@ -326,6 +329,9 @@ fn recover_and_compare(w: &mut World, sc_op: &Op, twin: &Value, pre: &Value, pre
         Ok(_) => {}
         Err(e) => v.push(("rp".into(), format!("after recovery and re-submission the tree is not relying-party valid: {:?}", e.iter().take(3).collect::<Vec<_>>()))),
     }
+    // status records exist only for what exists (C19's invariant, here
+    // after a cut)
+    v.extend(crate::checks::c19::stale_entries(w).into_iter().map(|(k, d)| (k, format!("after recovery and re-submission: {d}"))));
     let got = observable(w);
     if &got != twin {
         v.push(("diverged".into(), format!("after recovery, background tasks and re-submission the observable state differs from the fault-free run: {} [{resubmission}]", first_diff(twin, &got, ""))));
